@@ -62,6 +62,9 @@ def check(node: WithStmt, errors: list[Error]) -> None:
                     with_params = ", ..."
 
                     match args[i]:
+                        case StrExpr(value=mode) if any(c in mode for c in "wax+"):
+                            return  # pragma: no cover
+
                         case StrExpr(value=mode) if "b" in mode:
                             func = "read_bytes"
 
